@@ -162,6 +162,14 @@ func HarnessC19Recover() {
 		return nil
 	})
 	cl := NewClient(cfg, mux)
+	if vParam("early", 0) == 1 {
+		// an operation issued while the first session is still being established: it waits for that session
+		go func() {
+			c0, stop := context.WithTimeout(context.Background(), 300*time.Millisecond)
+			defer stop()
+			_ = cl.SendMessage(c0, &Message{Envelope: Envelope{ID: "early"}, Type: MediaTypeTextPlain(), Content: TextDocument("e")})
+		}()
+	}
 	vQuiesce()
 	if fault == vhFaultBurstDrop {
 		// the connection drops while the receiver is busy with the burst
